@@ -219,3 +219,16 @@ PROPS["C09"] = dict(
     assumptions=SUB_ASSUME + ["NEON and simd128 are covered by the theorems (every arch value) and by the emulated builds of the thorough tier, not executed natively"],
     trusted=SUB_TRUSTED,
 )
+
+PROPS["C15"] = dict(
+    id="C15", coq_files=MEM_PROOF_FILES + ["Conc/DispatchProofs.v", "Props/C15.v"],
+    gen=gens.gen_c15, oracle=gens.oracle_c15, nontrivial=lambda op, kv: op != "sharedneedle", shrink_fields=[],
+    builds=["debug", "release"], runner="conc", escalate=False,
+    rule="fresh processes (the dispatch cell starts at `detect`), N in {2,4,8,16,64} threads released by a barrier, each thread running its "
+         "residue class of one case file through the seven dispatched memchr routines, the memchr iterators, memmem::find/rfind, and through ONE "
+         "shared Finder / FinderRev and clones of a shared find_iter; MEMCHR_VERIF_CPU varied over {host AVX2, sse2, none}; every output compared "
+         "with the sequential model and the naive oracle; 150 processes quick, 3000 thorough; non-trivial = every case",
+    assumptions=MEM_ASSUME + ["Relaxed atomics on the single dispatch cell are modelled as: a load returns some value stored so far (coherence)",
+                              "data races on non-atomic memory cannot be exhibited by the model; they are only sampled at run time"],
+    trusted=MEM_TRUSTED + ["the Rust memory model, `unsafe impl Send/Sync for Iter`, transmute of the function pointer"],
+)
